@@ -113,6 +113,18 @@ def replay_sepin_all(inner, open_kind, tok, ch):
     return replay_sep_inside(inner, open_kind, tok, ch)
 
 
+def extlink_all(scheme: int, label: bool, where: int, ci: int) -> bool:
+    """
+    pre: 0 <= scheme < N_SCHEMES and 0 <= where < len(EXT_WHERE) and 0 <= ci < len(EXT_CH)
+    post: _
+    """
+    return extlink_step(scheme, label, where, ci)
+
+
+def replay_extlink_all(scheme, label, where, ci):
+    return replay_extlink(scheme, label, where, ci)
+
+
 def carry_flags(pre_parse: bool, bol: bool, wsp: bool, supp: bool) -> bool:
     """
     post: _
@@ -300,7 +312,7 @@ def run(rep: C.Report) -> None:
         "Attribute parsing: parse_attrs returns exactly the written map for symbolic names/values in three quoting styles; the table-attribute detector accepts the whole URL-safe attribute grammar (z3, unbounded)."
     )
     rep.assumptions += ["table state abstraction; cells hold plain text; begline representation invariant", "mid-line single '|' (attribute separator) is not part of the step set"]
-    rep.outside += ["HTML element nesting (permitted parents / auto-close)", "link, external-link and template argument lists (vbar_split uses a back-reference pattern)", "attributes on cells via 'attrs | content'", "nested tables"]
+    rep.outside += ["HTML element nesting (permitted parents / auto-close)", "link and template argument lists beyond Ob6/Ob10 (vbar_split uses a back-reference pattern)", "attributes on cells via 'attrs | content'", "nested tables"]
     rep.trusted += ["CrossHair 0.0.110", "z3", "reference grid builder in harness/C03_tables.py"]
     try:
         src = open(H).read() + "\n" + gen(quick)
@@ -309,6 +321,7 @@ def run(rep: C.Report) -> None:
             H,
             {
                 "^t_": dict(name="Ob2 table one-step lemmas (|-  |  !  ||  !!  |+  |})", functions=["parser.py:table_row_fn", "parser.py:table_cell_fn", "parser.py:table_hdr_cell_fn", "parser.py:double_vbar_fn", "parser.py:table_caption_fn", "parser.py:table_end_fn"], bounds="all table states with <= 2 closed cells of symbolic kind, optional open cell of symbolic kind with one symbolic content char, optional caption"),
+                "^extlink_": dict(name="Ob10 [target label] with a target of any scheme of URL_STARTS is one URL node whose argument lists are the written target and label", functions=["parser.py:magic_fn (E branch)", "parser.py:text_fn (URL check)", "core.py:Wtp._encode.repl_extlink", "common.py:URL_STARTS"], bounds="every entry of URL_STARTS (read from the source) x with/without label x {top level, table cell, list item, HTML element, link argument} x one inner target character over {a . - _ ~} (the target never ends in punctuation: a final . ! ? , is moved out of a bracketed URL by the URL-token handler, observed and not claimed either way) (symbolic indices: solver-driven case split, parse() untraced)"),
                 "^sepin_": dict(name="Ob8 cell separators (!!, mid-line !, ||) inside an open HTML element / link / template / external link in a cell are text", functions=["parser.py:table_hdr_cell_fn", "parser.py:double_vbar_fn"], bounds="4 construct kinds x data/header cell x 3 tokens x one symbolic preceding character"),
                 "^carry_": dict(name="Ob9 parse() of a table / HTML document does not depend on parser flags left behind by an earlier parse() on the same context (havoc)", engine="E4 havoc via CrossHair", functions=["parser.py:parse_encoded (per-call reset)"], bounds="4 symbolic flags (pre_parse, beginning_of_line, wsp_beginning_of_line, suppress_special); one document with a table (caption, attributes, header and data cells, link) and nested HTML elements"),
                 "^nest_": dict(name="Ob7 beginning-of-line syntax stays disabled while any argument list is being re-parsed (nesting of the disable manager)", functions=["core.py:BegLineDisableManager"], bounds="all well-nested enter/exit sequences of length 6"),
